@@ -87,9 +87,11 @@ def gen_event(rng, content, lens, var_names, plain):
         return ["newy0"]
     if r < 0.70:
         return ["rhs", norm, b(0.6)]
-    if r < 0.90:
+    if r < 0.86:
         v = rng.choice(var_names + (["nope"] if rng.random() < 0.05 else []))
         return [rng.choice(["prod", "cons"]), v, b(), norm, b(0.6)]
+    if r < 0.92:
+        return ["pvals"]
     if plain:
         ks = rng.sample(plain, rng.randint(1, len(plain)))
         return ["setpars", [[k, str(rng.choice([-3, -1, 0, 1, 2, 5, "1/2"]))] for k in ks]]
@@ -188,6 +190,14 @@ def canon_view(v):
     raise TypeError(type(v))
 
 
+def init_pars_of(case):
+    """what the shared model holds when the history starts: a result recorded by the Simulator leaves the
+    model with the last segment's parameters; a directly built one with the content's own"""
+    if case.get("mode") == "simulator" and case["segs"]:
+        return case["segs"][-1]["pars"]
+    return []
+
+
 def raw_pars_of(case):
     ps = [s["pars"] for s in case["segs"]]
     ps = ps[: len(ps) - case.get("drop_pars", 0)] + case.get("extra_pars", [])
@@ -263,6 +273,8 @@ def run_event(sim, m, ev, form):
         if kind == "setpars":
             m.update_parameters({k: _f(v) for k, v in ev[1]})
             return {"ok": ["dict", []]}
+        if kind == "pvals":  # the shared model as its owner sees it
+            return {"ok": ["dict", sorted([k, C.num(v)] for k, v in m.get_parameter_values().items())]}
         if kind == "args":
             kw = {"include_variables": ev[1][0], "include_parameters": ev[1][1], "include_derived_parameters": ev[1][2],
                   "include_derived_variables": ev[1][3], "include_reactions": ev[1][4],
@@ -316,8 +328,8 @@ def _real_worker(case):
         out["events"].append(run_event(sim, m, ev, case.get("normform", 0)))
     # idempotence oracle: every read again, each on a fresh object and a fresh model
     for ev in case["events"]:
-        if ev[0] == "setpars":
-            out["fresh"].append({"ok": ["dict", []]})
+        if ev[0] in ("setpars", "pvals"):
+            out["fresh"].append(out["events"][len(out["fresh"])])
             continue
         try:
             sim2, m2 = build_simulation(dict(case, mode="direct"))
@@ -360,6 +372,9 @@ class Oracle:
         self.pars = raw_pars_of(case)
         self._spec = {}
         self.readouts = dict(self.content.get("readouts", []))
+        # the shared model's plain parameter values as its owner left them: reads never change them
+        self.cur = {k: v["v"] for k, v in self.content["pars"] if "v" in v}
+        self.cur.update(dict(init_pars_of(case)))
 
     def spec(self, i):
         if i not in self._spec:
@@ -523,7 +538,10 @@ class Oracle:
         try:
             if kind == "setpars":
                 with_pars(self.content, ev[1])
+                self.cur.update(dict(ev[1]))
                 return {"ok": ["dict", []]}
+            if kind == "pvals":
+                return {"ok": ["dict", sorted([k, rat_str(Fraction(v))] for k, v in self.cur.items())]}
             if kind == "args":
                 v = self.finish(self.selected(dict(zip(FLAG_ORDER, ev[1]))), ev[2], ev[3])
             elif kind == "vars":
@@ -606,6 +624,7 @@ def canon_M(r):
 
 def _req(case, spec=False):
     return {"op": "c10", "content": case["content"], "segs": case["segs"], "events": case["events"],
+            "init_pars": init_pars_of(case),
             "extra_pars": case.get("extra_pars", []), "drop_pars": case.get("drop_pars", 0), "spec": spec}
 
 
@@ -762,7 +781,7 @@ def exhaustive_cases():
         # chunks of the event list, each preceded / interrupted by a parameter change on the shared model
         for a in range(0, len(evs), 24):
             chunk = evs[a:a + 24]
-            chunk = chunk[:7] + [["setpars", [["k", "5"]]]] + chunk[7:]
+            chunk = chunk[:7] + [["setpars", [["k", "5"]]], ["pvals"]] + chunk[7:] + [["pvals"]]
             cases.append({"content": content, "segs": segs, "events": chunk, "decl_seed": a, "mode": "direct" if form % 2 else "simulator",
                           "normform": form})
     return cases
